@@ -6,3 +6,9 @@ import (
 
 // AperLog : Log entry of aper
 var AperLog *logrus.Entry
+
+func init() {
+	log := logrus.New()
+	log.SetReportCaller(false)
+	AperLog = log.WithFields(logrus.Fields{"component": "LIB", "category": "Aper"})
+}
